@@ -2,6 +2,7 @@
 //! Runs the real crate on generated inputs and writes cases / observations for the Coq model to re-evaluate.
 mod c07;
 mod c08;
+mod c09;
 mod c10;
 mod c11;
 mod c12;
@@ -66,6 +67,7 @@ fn main() {
     match prop.as_str() {
         "C07" => c07::run(seed, count, &mut out, &tmp),
         "C08" => c08::run(seed, count, thorough, &mut out),
+        "C09" => c09::run(seed, count, thorough, &mut out),
         "C10" => c10::run(seed, count, thorough, &mut out),
         "C11" => c11::run(seed, count, thorough, &mut out),
         "C12" => c12::run(seed, count, thorough, &mut out),
